@@ -91,13 +91,14 @@ pub fn gc_policy_strategy() -> BoxedStrategy<String> {
         6 => (1u64..4).prop_map(|n| format!("versions = {n}")),
         1 => (1u64..1000).prop_map(|n| format!("ttl_micros = {n}")),
     ];
-    leaf.prop_recursive(2, 6, 3, |inner| {
+    let leaf2 = leaf.clone();
+    let nested = leaf.prop_recursive(2, 6, 3, |inner| {
         prop_oneof![
             prop::collection::vec(inner.clone(), 1..3).prop_map(|v| format!("any({})", v.join(", "))),
             prop::collection::vec(inner, 1..3).prop_map(|v| format!("all({})", v.join(", "))),
         ]
-    })
-    .boxed()
+    });
+    prop_oneof![3 => leaf2, 2 => nested].boxed()
 }
 
 pub fn config_strategy(profile: Profile) -> BoxedStrategy<StoreConfig> {
@@ -259,7 +260,7 @@ pub fn op_strategy(w: OpWeights, surface: Surface) -> BoxedStrategy<Op> {
         let ing = prop::collection::vec((any::<u16>(), prop::collection::vec(prop::option::weighted(0.7, sz3), 1..4)), 1..10).prop_map(|items| Op::Ingest { items });
         v.push((w.put + w.del + w.batch + w.flush + w.ingest, ing.boxed()));
     }
-    v.push((w.compact, (1u8..5).prop_map(|steps| Op::Compact { steps }).boxed()));
+    v.push((w.compact, prop_oneof![3 => 1u8..5, 2 => 5u8..20].prop_map(|steps| Op::Compact { steps }).boxed()));
     v.push((w.verify, Just(Op::Verify).boxed()));
     v.push((w.reopen, Just(Op::Reopen).boxed()));
     if w.scan > 0 {
@@ -598,17 +599,27 @@ impl<'a> Harness<'a> {
         let after = self.levels();
         let set = |l: &[Vec<SstMetadata>]| -> BTreeSet<[u8; 32]> { l.iter().flatten().map(|m| m.setsum).collect() };
         let (sb, sa) = (set(&shape_before), set(&after));
-        let is_gc;
-        if sb == sa {
-            self.stats.moves += 1;
-            is_gc = false;
-        } else {
-            let removed_from_last = shape_before[lsmtk::NUM_LEVELS - 1].iter().any(|m| !sa.contains(&m.setsum));
-            let added_to_last = after[lsmtk::NUM_LEVELS - 1].iter().any(|m| !sb.contains(&m.setsum));
-            is_gc = removed_from_last || added_to_last;
-            if is_gc { self.stats.gcs += 1 } else { self.stats.merges += 1 }
+        let _ = (&sb, &sa);
+        let kind = lsmtk::verif::last_kind();
+        let is_gc = kind == lsmtk::verif::KIND_GARBAGE_COLLECTION;
+        match kind {
+            lsmtk::verif::KIND_TRIVIAL_MOVE => self.stats.moves += 1,
+            lsmtk::verif::KIND_GARBAGE_COLLECTION => self.stats.gcs += 1,
+            _ => self.stats.merges += 1,
         }
         self.note_shape(&after);
+        if std::env::var("VERIF_TRACE").is_ok() {
+            let names = ["none", "move", "merge", "gc"];
+            eprintln!("  step kind={} -> {}", names[kind as usize % 4], self.shape());
+            for (li, l) in after.iter().enumerate() {
+                for m in l.iter() {
+                    eprintln!("     L{li} [{}..{}] ts {}..{} {}", gens::show(&m.first_key), gens::show(&m.last_key), m.smallest_timestamp, m.biggest_timestamp, &setsum::Setsum::from_digest(m.setsum).hexdigest()[..8]);
+                }
+            }
+            if let Err(f) = self.check_reads("step") {
+                eprintln!("  !! reads wrong after this step: {}", f.message);
+            }
+        }
         if let (Some(_), Some(bd)) = (before, before_dump) {
             let ad = self.dump_levels(&after)?;
             self.check_conservation(&bd, &ad, is_gc, &shape_before, &after)?;
@@ -632,15 +643,27 @@ impl<'a> Harness<'a> {
     }
 
     /// The trigger predicate of known finding R-P, computed from the tree shape and the options:
-    /// the smallest L0 compaction (all of L0 plus every L1 file overlapping L0's key range) already
-    /// exceeds max_compaction_files.
+    /// the smallest L0 compaction (all of L0 plus the closure of level-1 files touching L0's key
+    /// range) already exceeds max_compaction_files.
     pub fn rp_predicate(&self, levels: &[Vec<SstMetadata>]) -> bool {
         if levels[0].is_empty() {
             return false;
         }
-        let first = levels[0].iter().map(|m| m.first_key.clone()).min().unwrap();
-        let last = levels[0].iter().map(|m| m.last_key.clone()).max().unwrap();
-        let overlapping = levels[1].iter().filter(|m| m.first_key <= last && first <= m.last_key).count();
+        let mut first = levels[0].iter().map(|m| m.first_key.clone()).min().unwrap();
+        let mut last = levels[0].iter().map(|m| m.last_key.clone()).max().unwrap();
+        // closure: a level-1 file that touches the range (boundaries inclusive) joins and widens it
+        let mut overlapping;
+        loop {
+            let hit: Vec<&SstMetadata> = levels[1].iter().filter(|m| m.first_key <= last && first <= m.last_key).collect();
+            overlapping = hit.len();
+            let nf = hit.iter().map(|m| m.first_key.clone()).min().map(|k| k.min(first.clone())).unwrap_or(first.clone());
+            let nl = hit.iter().map(|m| m.last_key.clone()).max().map(|k| k.max(last.clone())).unwrap_or(last.clone());
+            if nf == first && nl == last {
+                break;
+            }
+            first = nf;
+            last = nl;
+        }
         (levels[0].len() + overlapping) as u64 > self.cfg.max_compaction_files
     }
 
@@ -651,7 +674,11 @@ impl<'a> Harness<'a> {
             return Ok(true);
         }
         self.stats.stalls_seen += 1;
-        let bound = flatten(&self.levels()).len() + 16;
+        // Trivial moves are preferred by the selector and each file can move down at most
+        // NUM_LEVELS - 1 times, so a relieving compaction may legitimately be preceded by that many
+        // moves per live file.
+        let bound = lsmtk::NUM_LEVELS * (flatten(&self.levels()).len() + 1) + 16;
+        let mut went_idle = false;
         for _ in 0..bound {
             if !self.should_stall() {
                 self.stats.stalls_relieved += 1;
@@ -659,6 +686,7 @@ impl<'a> Harness<'a> {
             }
             let worked = self.compaction_step()?;
             if !worked {
+                went_idle = true;
                 break;
             }
         }
@@ -674,10 +702,11 @@ impl<'a> Harness<'a> {
         }
         if self.probes.stall {
             return Err(fail(
-                if self.rp_predicate(&levels) { "stall:unrelieved:l0-exceeds-max-compaction-files" } else { "stall:unrelieved" },
+                if self.rp_predicate(&levels) { "stall:unrelieved:l0-exceeds-max-compaction-files" } else if went_idle { "stall:unrelieved:selector-idle" } else { "stall:unrelieved:step-bound" },
                 format!(
-                    "level 0 is at the write-stall threshold, no compaction is in progress, and the compaction selector finds nothing to run (or {} steps did not relieve it); tree {}; stall files {} bytes {}; max_compaction_files {} bytes {}",
-                    bound, self.shape(), self.cfg.l0_stall_files, self.cfg.l0_stall_bytes, self.cfg.max_compaction_files, self.cfg.max_compaction_bytes
+                    "level 0 is at the write-stall threshold, no compaction is in progress, and {}; tree {}; stall files {} bytes {}; max_compaction_files {} bytes {}",
+                    if went_idle { "the compaction selector finds nothing to run".to_string() } else { format!("{bound} compaction steps did not relieve it") },
+                    self.shape(), self.cfg.l0_stall_files, self.cfg.l0_stall_bytes, self.cfg.max_compaction_files, self.cfg.max_compaction_bytes
                 ),
             ));
         }
@@ -1246,6 +1275,7 @@ pub fn run_history(ctx: &Ctx, h: &History, probes: Probes, o: &mut Outcome) -> S
                 hs.check_files()?;
             }
             if probes.balance {
+                hs.stats.rolled_fragments = hs.stats.rolled_fragments.max(crate::manifest::fragments(&hs.root).len().saturating_sub(1) as u64);
                 crate::manifest::check_balance(&hs.root).map_err(|(s, m)| fail(s, format!("after {name}: {m}")))?;
             }
         }
